@@ -398,6 +398,31 @@ class FactFlow:
                 if isinstance(el, ast.Name) and self.ret_nonneg(s.value, i):
                     out.add(("GE0", el.id))
                     out.add(("INT", el.id, 0, float("inf")))
+        # LELEN(v, x): v <= len(x).  v = i + 1 / v += i + 1 (v == 0 before) with i a valid index of x; consumed by w = len(x) - v.
+        def _idx_plus_one(e: ast.expr) -> Optional[str]:
+            if isinstance(e, ast.BinOp) and isinstance(e.op, ast.Add):
+                for a, b in ((e.left, e.right), (e.right, e.left)):
+                    if isinstance(a, ast.Name) and const_int(b) == 1:
+                        i = a.id
+                        for f in self._pre:
+                            if f[0] == "IDX" and f[1] == i:
+                                return f[2]
+                            if f[0] == "IDXM1" and f[1] == i and (("NE", i, "-1") in self._pre or any(g[0] == "INT" and g[1] == i and g[2] >= 0 for g in self._pre)):
+                                return f[2]
+            return None
+        if isinstance(s, ast.Assign) and len(s.targets) == 1 and isinstance(s.targets[0], ast.Name):
+            x_ = _idx_plus_one(s.value)
+            if x_ is not None:
+                out.add(("LELEN", s.targets[0].id, x_))
+            v = s.value
+            if isinstance(v, ast.BinOp) and isinstance(v.op, ast.Sub) and isinstance(v.left, ast.Call) and isinstance(v.left.func, ast.Name) and v.left.func.id == "len" \
+                    and len(v.left.args) == 1 and isinstance(v.right, ast.Name) and ("LELEN", v.right.id, norm(v.left.args[0])) in self._pre:
+                out.add(("GE0", s.targets[0].id))
+                out.add(("INT", s.targets[0].id, 0, float("inf")))
+        if isinstance(s, ast.AugAssign) and isinstance(s.target, ast.Name) and isinstance(s.op, ast.Add) and ("EQ", s.target.id, "0") in self._pre:
+            x_ = _idx_plus_one(s.value)
+            if x_ is not None:
+                out.add(("LELEN", s.target.id, x_))
         if isinstance(s, ast.AugAssign) and isinstance(s.target, ast.Name) and self.ival is not None:
             lo, hi = self.ival(ast.BinOp(left=ast.Name(id=s.target.id, ctx=ast.Load()), op=s.op, right=s.value), self._pre)
             if lo != float("-inf") or hi != float("inf"):
@@ -458,6 +483,8 @@ class FactFlow:
                             out.add(("GE0", i))
                         if isinstance(hi, ast.Call) and isinstance(hi.func, ast.Name) and hi.func.id == "len" and cl is not None and cl >= 0:
                             out.add(("IDX", i, norm(hi.args[0])))
+                        if isinstance(hi, ast.Call) and isinstance(hi.func, ast.Name) and hi.func.id == "len" and len(hi.args) == 1:
+                            out.add(("LTLEN", i, norm(hi.args[0])))      # i < len(x); whether i >= 0 depends on the lower bound (LE fact above)
                     elif step is not None and step < 0:
                         # range(len(x) - 1, -1, -1)
                         ch = const_int(hi)
